@@ -279,6 +279,46 @@ def run_dag(ctx, spec, formulas, gid):
             r.seen('missing_member_example', f'{a}:{missing_members[:3]}')
         if len(clo) >= 3 and (areas or cross):
             r.nt((gid, s, a))
+    # One Parser kept across two workbooks: the entry point is set once, then only the path changes. The second workbook has the
+    # sheets in reverse order, every number + 1000 and ANOTHER formula in the entry cell: the second slice has to be the slice of
+    # the second workbook - the entry cell kept by the parser must not carry what translating the first one resolved and filled in
+    # (sheet index, formula text).
+    import copy
+    ns_ = len(spec['sheets'])
+    for (s, a) in formulas[:3]:
+        spec2 = copy.deepcopy(spec)
+        for sh in spec2['sheets']:
+            for a_, v_ in list(sh['cells'].items()):
+                if isinstance(v_, (int, float)) and not isinstance(v_, bool):
+                    sh['cells'][a_] = v_ + 1000
+        consts = [a_ for a_, v_ in spec2['sheets'][s]['cells'].items() if isinstance(v_, (int, float)) and not isinstance(v_, bool)]
+        spec2['sheets'][s]['cells'][a] = f'={consts[0]}+12345' if consts else '=12345+1'
+        spec2['sheets'].reverse()
+        s2 = ns_ - 1 - s
+        path2 = wbspec.write(spec2, __import__('os').path.join(ctx.workdir, 'second.xlsx'))
+        fresh = pipeline.translate(path2, entry=pipeline.entry_cell(titles[s], a))
+        p = pipeline.make_parser(whole.path, entry=pipeline.entry_cell(titles[s], a))
+        t1 = pipeline.guarded(lambda: p.get_translation(), 'translate')
+        p.set_excel_file_path(path2)
+        t2 = pipeline.guarded(lambda: p.get_translation(), 'translate')
+        r.ev()
+        r.count('parser_reused_across_workbooks')
+        case = {'spec': spec, 'second_spec': spec2, 'entry': [s, a], 'gid': gid,
+                'history': 'set_path(w1), set_entry(e), get, set_path(w2), get  (w2: sheets reversed, numbers + 1000, another entry formula)'}
+        if not (fresh.ok and t2.ok):
+            if fresh.ok != t2.ok:
+                report(r, ID, None, case, {'reused_parser': t2.brief() if not t2.ok else 'text'}, {'fresh_parser': fresh.brief() if not fresh.ok else 'text'},
+                       monitor='slice-after-path-change')
+            continue
+        ld, lf = pipeline.load_text(t2.value), pipeline.load_text(fresh.value)
+        if not (ld.ok and lf.ok):
+            continue
+        rr, cc = wbspec.rc(a)
+        o_s, o_w = pipeline.query(ld.value, s2, rr, cc), pipeline.query(lf.value, s2, rr, cc)
+        r.ev()
+        if not same(o_s, o_w) or t2.value != fresh.value:
+            report(r, ID, None, case, {'slice_of_reused_parser': o_s.brief(), 'same_text_as_fresh_parser': t2.value == fresh.value},
+                   {'slice_of_fresh_parser_on_second_workbook': o_w.brief()}, monitor='slice-after-path-change')
     return
 
 
